@@ -137,11 +137,11 @@ InjectAll(b, ds, k, w) == IF k > Len(ds) THEN b ELSE InjectAll(Inject(b, ds[k], 
 \* respelling).  Otherwise (C19) they are part of what the signer sends (duplicated inputs) and
 \* b.over records the signer's own choice of timestamp / credential / signed list.
 WireOf(b) == MutAll(MkX(b.L), b.post, 1)
-SignedWireOf(b) == IF ("none" \in DOMAIN b.over) THEN MkX(b.L) ELSE WireOf(b)
+SignedWireOf(b) == IF ("none" \in DOMAIN b.over) \/ ("honest" \in DOMAIN b.over) THEN MkX(b.L) ELSE WireOf(b)
 
 SignerView(b, w0) ==
     LET r == Q(EnvOfWire(w0), b.cfg) IN
-    IF ("none" \in DOMAIN b.over) \/ ~CanSign(r) THEN r
+    IF ("none" \in DOMAIN b.over) \/ ("honest" \in DOMAIN b.over) \/ ~CanSign(r) THEN r
     ELSE LET signed == IF "signed" \in DOMAIN b.over THEN b.over.signed ELSE r.signed
              inst   == IF "ts" \in DOMAIN b.over THEN Parse(b.over.ts).inst ELSE r.inst
              cred   == IF "cred" \in DOMAIN b.over THEN b.over.cred ELSE r.cred
@@ -151,7 +151,11 @@ SignerView(b, w0) ==
 CaseOfBundle(b, id) ==
     LET w0  == SignedWireOf(b)
         r   == SignerView(b, w0)
-        dir == IF CanSign(r) THEN Directive(r, b.signSecret) @@ [sigmut |-> b.sigmut] ELSE "none"
+        dir == IF CanSign(r)
+               THEN [sigmut |-> b.sigmut,
+                     payloadhex |-> IF "payloadhex" \in DOMAIN b.over THEN b.over.payloadhex ELSE <<>>,
+                     rawkey |-> IF "rawkey" \in DOMAIN b.over THEN b.over.rawkey ELSE <<>>] @@ Directive(r, b.signSecret)
+               ELSE "none"
         w   == WireOf(b)
     IN [op |-> "req", id |-> id, method |-> w.method, uri |-> w.uri, version |-> w.version,
         headers |-> w.headers, body |-> w.body, cfg |-> b.cfg, script |-> b.script, sign |-> dir,
@@ -163,9 +167,11 @@ FirstRuleOf(b) == Q(EnvOfWire(MkX(b.L)), b.cfg).err.rule
 Methods == <<B("GET"), B("POST"), B("DELETE"), B("PROPFIND"), B("M-SEARCH")>>
 Versions == <<"HTTP/1.1", "HTTP/0.9", "HTTP/1.0", "HTTP/2.0", "HTTP/3.0">>
 Paths   == <<B("/"), B("/a//b/./c/../d"), B("/a%20b/%7Ec/"), B("/a/b"), B("/%E2%82%AC/x*y"), B("/a/b/")>>
-Queries == << <<>>, B("a=1"), B("b=2&a=1&a=0&m=dGVzdA=="), B("a1=2&a=1&a-=3&A=4"), B("k=%20+%7e&k2=&k3"), B("x=%E2%82%AC&&y==z") >>
+LongQuery == Join([i \in 1..36 |-> <<97 + (i % 3)>> \o <<61>> \o Dec((i * 7) % 36, 2)], <<AMP>>)
+Queries == << <<>>, LongQuery, B("b=2&a=1&a=0&m=dGVzdA=="), B("a=1"), B("a1=2&a=1&a-=3&A=4"), B("k=%20+%7e&k2=&k3"), B("x=%E2%82%AC&&y==z") >>
 HdrSets == << <<>>,
-              << <<B("X-Amz-Meta"), B("  a   b  ")>> >>,
+              << <<B("X-Amz-Meta"), B("  a   b  ")>>, <<B("Date"), B("Sun, 30 Aug 2015 12:36:00 GMT")>>,
+                 <<B("X-Amz-Content-Sha256"), B("UNSIGNED-PAYLOAD")>> >>,
               << <<B("My-Header1"), B("v1")>>, <<B("my-header1"), <<>> >>, <<B("My-header1"), B("v2 ,  v3")>>, <<B("MY-HEADER1"), B("  ")>> >>,
               << <<B("Content-Type"), B("text/plain")>>, <<B("X-Empty"), <<>> >> >>,
               << <<B("Zeta"), <<233, 32, 32, 9, 120>> >>, <<B("alpha"), B("1")>> >> >>
@@ -183,9 +189,9 @@ CarrierOf(k) == IF k = 1 THEN "hdr" ELSE "qry"
 \* a request with something in every component
 RichL(carrier) ==
     LET L1 == [Bundle0(carrier).L EXCEPT !.method = B("POST"), !.path = B("/a%20b/c"), !.query = B("b=2&a=%20x&a=0&m=dGVzdA==&f=c=d"),
-                                        !.hdrs = @ \o << <<B("X-Amz-Meta"), B("a  b")>>, <<B("My-Header1"), B("v1")>>,
+                                        !.hdrs = @ \o << <<B("X-Amz-Meta"), B("a  b") \o <<233>> >>, <<B("My-Header1"), B("v1")>>,
                                                         <<B("my-header1"), <<>> >>, <<B("my-header1"), B("v2")>>,
-                                                        <<B("Unsigned"), B("u")>> >>,
+                                                        <<B("My-Header1-2"), B("w")>>, <<B("Unsigned"), B("u")>> >>,
                                         !.body = B("hello"), !.hasToken = TRUE, !.token = TokenV]
     IN [L1 EXCEPT !.signed = SelectSeq(SignAll(L1), LAMBDA n : n # B("unsigned"))]
 RichB(carrier) == [Bundle0(carrier) EXCEPT !.L = RichL(carrier)]
@@ -253,9 +259,14 @@ StructMut(w, k) ==
          [] k = 4  -> << [k |-> "hdrins", at |-> 1, name |-> B("X-New"), v |-> B("n")] >>  \* add an unsigned header
          [] k = 5  -> << [k |-> "hdrdel", h |-> hu] >>                                     \* remove an unsigned header
          [] k = 6  -> << [k |-> "hdrset", h |-> hu, v |-> B("changed")] >>                 \* change an unsigned header
-         [] k = 7  -> << [k |-> "hdrset", h |-> hx, v |-> B(" a b ")] >>                   \* respace a signed value
-         [] k = 8  -> << [k |-> "hdrset", h |-> hx, v |-> B("ab")] >>                      \* remove the inner space
-         [] k = 9  -> << [k |-> "hdrset", h |-> hx, v |-> B("A  b")] >>                    \* letter case of a value
+         [] k = 7  -> << [k |-> "hdrset", h |-> hx, v |-> B(" a b") \o <<233, 32>>] >>        \* respace a signed value
+         [] k = 8  -> << [k |-> "hdrset", h |-> hx, v |-> B("ab") \o <<233>>] >>              \* remove the inner space
+         [] k = 9  -> << [k |-> "hdrset", h |-> hx, v |-> B("A  b") \o <<233>>] >>            \* letter case of a value
+         [] k = 21 -> << [k |-> "hdrset", h |-> hx, v |-> B("a  b") \o <<232>>] >>            \* another Latin-1 byte
+         [] k = 22 -> << [k |-> "hdrset", h |-> hx, v |-> B("a  b") \o <<239, 191, 189>>] >>  \* U+FFFD in its place
+         [] k = 23 -> << [k |-> "hdrins", at |-> 1, name |-> B("Content-Type"),
+                          v |-> B("application/x-www-form-urlencoded; charset=klingon")] >>     \* unsigned, not consulted (no folding)
+         [] k = 24 -> << [k |-> "hdrins", at |-> 1, name |-> B("Content-Type"), v |-> B("text/plain; charset=\"")] >>
          [] k = 10 -> << [k |-> "method", v |-> B("PUT")] >>
          [] k = 11 -> << [k |-> "version", v |-> "HTTP/1.0"] >>
          [] k = 12 -> << [k |-> "uri", v |-> UriOf(UriPath(w.uri), Join(DropAt(qs, 1), <<AMP>>))] >>       \* drop a parameter
@@ -267,7 +278,7 @@ StructMut(w, k) ==
          [] k = 18 -> << [k |-> "body", v |-> SubSeq(w.body, 1, Len(w.body) - 1)] >>
          [] k = 19 -> << [k |-> "hdrname", h |-> hx, v |-> B("X-Amz-Metb")] >>                                \* rename a signed header
          [] k = 20 -> << [k |-> "hdrset", h |-> HdrIndex(w, bHost), v |-> B("evil.example.com")] >>
-NumStruct == 20
+NumStruct == 24
 
 \* ---------------------------------------------------------------- C03 material
 ScopeVariants == <<
@@ -298,6 +309,7 @@ ScopeVariants == <<
     <<B("201508300"), B("us-east-1"), B("service"), B("aws4_request")>>,
     <<B("2015-08-30"), B("us-east-1"), B("service"), B("aws4_request")>>,
     <<B("2015 0830"), B("us-east-1"), B("service"), B("aws4_request")>>,
+    <<B("2015830"), B("us-east-1"), B("service"), B("aws4_request")>>,
     <<B(" 20150830"), B("us-east-1"), B("service"), B("aws4_request")>>,
     <<B("2015 8 30"), B("us-east-1"), B("service"), B("aws4_request")>>,
     <<B("+20150830"), B("us-east-1"), B("service"), B("aws4_request")>>,
@@ -424,6 +436,20 @@ DupCases == <<
     WithPost(HdrB, << [k |-> "hdrins", at |-> 3, name |-> B("Date"), v |-> TsB] >>, [ts |-> TsA]),
     WithPost(HdrB, << [k |-> "hdrins", at |-> 2, name |-> B("Date"), v |-> TsB] >>, [ts |-> TsB]),
     WithPost(HdrB, << [k |-> "hdrins", at |-> 3, name |-> B("Date"), v |-> TsB] >>, [ts |-> TsB]),
+    \* ... also when the Date header is listed in SignedHeaders
+    WithPost([HdrB EXCEPT !.L.signed = <<B("date"), B("host"), B("x-amz-date")>>],
+             << [k |-> "hdrins", at |-> 2, name |-> B("Date"), v |-> TsB] >>, [ts |-> TsA]),
+    WithPost([HdrB EXCEPT !.L.signed = <<B("date"), B("host"), B("x-amz-date")>>],
+             << [k |-> "hdrins", at |-> 3, name |-> B("Date"), v |-> TsB] >>, [ts |-> TsA]),
+    WithPost([HdrB EXCEPT !.L.signed = <<B("date"), B("host"), B("x-amz-date")>>],
+             << [k |-> "hdrins", at |-> 2, name |-> B("Date"), v |-> TsB] >>, [ts |-> TsB]),
+    \* a folded form body that repeats X-Amz-* parameters of a presigned URL: the URL's (first) values count
+    WithPost([QryB EXCEPT !.cfg.fold = TRUE, !.L.method = B("POST"), !.L.hdrs = @ \o <<FormHdr>>,
+                          !.L.body = B("X-Amz-Credential=") \o Enc(CredOf(B("WRONG"))) \o B("&X-Amz-Date=20150830T123000Z&a=1")], <<>>, NoOver),
+    WithPost([QryB EXCEPT !.cfg.fold = TRUE, !.L.method = B("POST"), !.L.hdrs = @ \o <<FormHdr>>,
+                          !.L.body = B("X-Amz-Security-Token=tokenBODY&X-Amz-SignedHeaders=host%3Bx-none&X-Amz-Signature=00")], <<>>, NoOver),
+    WithPost([QryB EXCEPT !.cfg.fold = TRUE, !.L.method = B("POST"), !.L.hdrs = @ \o <<FormHdr>>, !.L.hasToken = TRUE, !.L.token = B("tokenURL"),
+                          !.L.body = B("X-Amz-Security-Token=tokenBODY")], <<>>, NoOver),
     \* only a Date header
     WithPost([HdrB EXCEPT !.L.dateHeader = B("Date"), !.L.signed = <<B("date"), B("host")>>], <<>>, NoOver),
     \* two security-token headers: the first one is handed to the provider
@@ -467,7 +493,7 @@ DupCases == <<
 
 \* ---------------------------------------------------------------- C08 material
 CharsetLabels == SetToSeq(Utf8Labels) \o SetToSeq(OtherKnownLabels)
-                 \o << B("foobar"), B("utf-9"), <<>>, B(" UTF-8 "), B("\"utf-8\""), B("utf-8;"), B("x-unknown") >>
+                 \o << B("foobar"), B("utf-9"), <<>>, B(" UTF-8 "), B("\"utf-8\""), B("utf-8;"), B("x-unknown"), B("\""), B("\"\""), B("'") >>
 CharsetBodies == << <<>>, B("a=1&b=%20"), <<97, 61, 255>>, <<97>>, <<254, 255, 0, 97>> >>
 AuthSet(v) == [k |-> "hdrset", h |-> 3, v |-> v]
 LongA(n) == [i \in 1..n |-> 97]
@@ -492,6 +518,9 @@ Degenerate == <<
     << AuthSet(B("AWS4-HMAC-SHA256 Credential=") \o <<233, 255, 128>> \o B("/20150830/us-east-1/service/aws4_request, SignedHeaders=host;x-amz-date, Signature=") \o <<255>>) >>,
     << AuthSet(B("AWS4-HMAC-SHA256 Credential=AKIDEXAMPLE/20150830/us-east-1/service/aws4_request, SignedHeaders=") \o <<233>> \o B(";host, Signature=0")) >>,
     << AuthSet(B("Basic dXNlcjpwYXNz")) >>, << AuthSet(B("AWS4-HMAC-SHA256Credential=x")) >>,
+    << AuthSet(B("Bearer AWS4-HMAC-SHA256 Credential=AKIDEXAMPLE/20150830/us-east-1/service/aws4_request, SignedHeaders=host;x-amz-date, Signature=") \o bSIG) >>,
+    << AuthSet(B("xAWS4-HMAC-SHA256 Credential=AKIDEXAMPLE/20150830/us-east-1/service/aws4_request, SignedHeaders=host;x-amz-date, Signature=") \o bSIG) >>,
+    << AuthSet(B("AWS4-HMAC-SHA256x Credential=AKIDEXAMPLE/20150830/us-east-1/service/aws4_request, SignedHeaders=host;x-amz-date, Signature=") \o bSIG) >>,
     << [k |-> "hdrset", h |-> 2, v |-> <<>>] >>, << [k |-> "hdrset", h |-> 2, v |-> B("   ")] >>,
     << [k |-> "hdrset", h |-> 2, v |-> <<255, 254>>] >>,
     << [k |-> "hdrset", h |-> 1, v |-> <<>>] >>,
@@ -499,7 +528,19 @@ Degenerate == <<
     << [k |-> "hdrins", at |-> 1, name |-> B("Content-Type"), v |-> <<>>] >>,
     << [k |-> "hdrins", at |-> 1, name |-> B("Content-Type"), v |-> B(";;;=;charset")] >>,
     << [k |-> "hdrins", at |-> 1, name |-> B("Content-Type"), v |-> B("application/x-www-form-urlencoded;charset=;charset=utf-8")] >>,
-    << [k |-> "body", v |-> LongA(3000)] >> >>
+    << [k |-> "body", v |-> LongA(3000)] >>,
+    << [k |-> "hdrins", at |-> 1, name |-> B("Content-Type"), v |-> B("text/plain; charset=\"")] >>,
+    << [k |-> "hdrins", at |-> 1, name |-> B("Content-Type"), v |-> B("application/x-www-form-urlencoded; charset=\"")] >>,
+    << [k |-> "hdrins", at |-> 1, name |-> B("Content-Type"), v |-> B("application/x-www-form-urlencoded; charset=\"\"")] >>,
+    << [k |-> "hdrins", at |-> 1, name |-> B("Content-Type"), v |-> B("application/x-www-form-urlencoded; charset=\"utf-8\"")] >>,
+    << [k |-> "uri", v |-> B("example.com:443")], [k |-> "method", v |-> B("CONNECT")], [k |-> "body", v |-> B("a=1")],
+       [k |-> "hdrins", at |-> 1, name |-> B("Content-Type"), v |-> B("application/x-www-form-urlencoded")] >>,
+    << [k |-> "uri", v |-> B("*")], [k |-> "method", v |-> B("OPTIONS")], [k |-> "body", v |-> B("a=1")],
+       [k |-> "hdrins", at |-> 1, name |-> B("Content-Type"), v |-> B("application/x-www-form-urlencoded")] >>,
+    << [k |-> "uri", v |-> B("http://example.com/a?b=1")], [k |-> "method", v |-> B("POST")], [k |-> "body", v |-> B("a=1")],
+       [k |-> "hdrins", at |-> 1, name |-> B("Content-Type"), v |-> B("application/x-www-form-urlencoded")] >>,
+    << [k |-> "uri", v |-> B("http://example.com")], [k |-> "method", v |-> B("POST")], [k |-> "body", v |-> <<>>],
+       [k |-> "hdrins", at |-> 1, name |-> B("Content-Type"), v |-> B("application/x-www-form-urlencoded")] >> >>
 
 \* C07: positions at which the presented signature first differs from the expected one (-1 = control repeat of 0)
 CtPositions == IF Bound = 0 THEN <<0, -1, 1, 2, 15, 31, 32, 47, 62, 63>>
@@ -537,10 +578,14 @@ Dim(k) ==
       \* Bound 0: URL and body lists of <= 1 component, bodies as sent; 1: three lists (incl. the same name in both)
       \* with body variants and post-signing body flips; 2: every pair of lists of <= 2 components
       [] Family = "fold"     -> V(CASE Bound = 0 -> <<2, 7, 7, Len(ContentTypes), 2, 1, 1>>
-                                    [] Bound = 1 -> <<2, 3, 3, Len(ContentTypes), 2, 3, 2>>
+                                    [] Bound = 1 -> <<2, 3, 3, 6, 2, 5, 2>>
                                     [] OTHER -> <<2, 43, 43, Len(ContentTypes), 2, 1, 2>>, k)
       [] Family = "dup"      -> V(<<Len(DupCases)>>, k)
       [] Family = "forever"  -> V(<<2, 3, 2>>, k)
+      [] Family = "s3hash"   -> V(<<2, 2, 4, 2, 2>>, k)
+      [] Family = "akid"     -> V(<<2, 5, 3>>, k)
+      [] Family = "zerokey"  -> V(<<2, 4>>, k)
+      [] Family = "ioerr"    -> V(<<4, 2, 2>>, k)
       [] Family = "logical"  -> V(<<Len(Logical)>>, k)
       \* request, key, position, variant (1 plain lower-case guess, 2 upper-case guess, 3 logger enabled at Trace level)
       [] Family = "ct"       -> V(<<IF Bound = 0 THEN 1 ELSE 3, IF Bound = 0 THEN 1 ELSE 2, Len(CtPositions), 3>>, k)
@@ -642,7 +687,11 @@ BundleOf ==
                 b     == Bundle0(IF idx[6] = 1 THEN "hdr" ELSE "qry")
                 base  == IF idx[6] = 1 THEN <<B("host"), B("x-amz-date")>> ELSE <<B("host")>>
             IN [b EXCEPT !.L.hdrs = @ \o hs,
-                         !.L.signed = SortLex(base \o SubsetOf(names, mask)),
+                         \* mask index 8 (quick) / every 8th (thorough): the dropped / first name is listed, but capitalised
+                         !.L.signed = SortLex(base \o SubsetOf(names, mask)
+                                              \o (IF idx[7] % 8 = 0 /\ names # <<>> /\ mask # full
+                                                  THEN << Styled((CHOOSE n \in SeqToSet(names) : ~HasElem(SubsetOf(names, mask), n)), 3) >>
+                                                  ELSE <<>>)),
                          !.cfg.always = StyledSubset(ReqAlways, IF Bound = 0 THEN 3 * (idx[1] - 1) ELSE idx[1] - 1, style),
                          !.cfg.ifin = StyledSubset(ReqIfIn, IF Bound = 0 THEN 3 * (idx[2] - 1) ELSE idx[2] - 1, style),
                          !.cfg.prefix = StyledSubset(ReqPrefix, idx[3] - 1, style),
@@ -654,6 +703,8 @@ BundleOf ==
                 body == CASE idx[6] = 1 -> body0
                           [] idx[6] = 2 -> (IF body0 = <<>> THEN <<>> ELSE body0 \o <<AMP>>) \o <<99, 61, 255>>
                           [] idx[6] = 3 -> (IF body0 = <<>> THEN <<>> ELSE body0 \o <<AMP>>) \o B("c=%zz")
+                          [] idx[6] = 4 -> <<239, 187, 191>> \o body0 \o B("&z=1")            \* UTF-8 byte-order mark: data
+                          [] idx[6] = 5 -> <<255, 254>> \o body0                              \* UTF-16 byte-order mark: not UTF-8
                 L1   == [b.L EXCEPT !.method = B("POST"), !.query = FoldList(idx[2]), !.body = body,
                                     !.hdrs = @ \o (IF ct = <<>> THEN <<>> ELSE << <<B("Content-Type"), ct>> >>)]
             IN [b EXCEPT !.L = [L1 EXCEPT !.signed = SignAll(L1)], !.cfg.fold = Bool(idx[5]),
@@ -667,6 +718,36 @@ BundleOf ==
             LET b  == Bundle0(CarrierOf(idx[3]))
                 b2 == [b EXCEPT !.script.readyIn = IF idx[1] = 1 THEN -1 ELSE 1, !.script.pendIn = IF idx[1] = 2 THEN -1 ELSE 0]
             IN (CASE idx[2] = 1 -> b2 [] idx[2] = 2 -> Inject(b2, 14, 1) [] idx[2] = 3 -> Inject(b2, 16, 1))
+      [] Family = "s3hash" ->
+            \* S3 mode x an X-Amz-Content-Sha256 header (right hash, another hash, UNSIGNED-PAYLOAD, junk) x body x signer
+            \* (honest: hashes the body; declared: puts the header's value into the canonical request)
+            LET b   == Bundle0(CarrierOf(idx[1]))
+                body == IF idx[4] = 1 THEN <<>> ELSE B("hello")
+                other == B("2cf24dba5fb0a30e26e83b2ac5b9e29e1b161e5c1fa7425e73043362938b9824")
+                empty == B("e3b0c44298fc1c149afbf4c8996fb92427ae41e4649b934ca495991b7852b855")
+                hv  == CASE idx[3] = 1 -> (IF idx[4] = 1 THEN empty ELSE other) [] idx[3] = 2 -> (IF idx[4] = 1 THEN other ELSE empty)
+                         [] idx[3] = 3 -> B("UNSIGNED-PAYLOAD") [] idx[3] = 4 -> B("junk")
+                L1  == [b.L EXCEPT !.method = B("PUT"), !.body = body, !.hdrs = @ \o << <<B("X-Amz-Content-Sha256"), hv>> >>]
+            IN [b EXCEPT !.L = [L1 EXCEPT !.signed = SignAll(L1)], !.cfg.s3 = Bool(idx[2]),
+                         !.over = IF idx[5] = 1 THEN [honest |-> TRUE] ELSE [honest |-> TRUE, payloadhex |-> hv]]
+      [] Family = "akid" ->
+            \* access key ids at the limits: empty, 1, 128, 129 and 300 characters; provider knows / does not know the key
+            LET b == Bundle0(CarrierOf(idx[1]))
+                n == <<0, 1, 128, 129, 300>>[idx[2]]
+                outc == <<"ok", "sigerr", "foreign">>
+            IN [b EXCEPT !.L.akid = [i \in 1..n |-> 65 + (i % 26)], !.script.answer = outc[idx[3]]]
+      [] Family = "zerokey" ->
+            \* the provider refuses the access key; the request is signed with an all-zero signing key
+            LET b == Bundle0(CarrierOf(idx[1]))
+                kinds == <<"InvalidClientTokenId", "ExpiredToken", "SignatureDoesNotMatch", "InternalServiceError">>
+            IN [b EXCEPT !.script.answer = "sigerr", !.script.errKind = kinds[idx[2]],
+                         !.over = [honest |-> TRUE, rawkey |-> [i \in 1..32 |-> 0]]]
+      [] Family = "ioerr" ->
+            \* foreign errors of I/O types a retrying implementation would consider transient
+            LET b == Bundle0(CarrierOf(idx[3]))
+                kinds == <<"io_timedout", "io_interrupted", "io_wouldblock", "io_reset">>
+            IN IF idx[2] = 1 THEN [b EXCEPT !.script.answer = "foreign", !.script.errKind = kinds[idx[1]]]
+               ELSE [b EXCEPT !.script.ready = "foreign", !.script.errKind = kinds[idx[1]]]
       [] Family = "logical" ->
             LET g  == Logical[idx[1]]
                 b  == Bundle0(g.carrier)
